@@ -30,7 +30,7 @@ t0=$(date +%s)
 ./check $ID --tier quick > /tmp/ev-$ID-$K.quick 2>&1; q=$?
 t1=$(date +%s)
 th=-
-if [ $q -ne 1 ]; then ./check $ID --tier thorough > /tmp/ev-$ID-$K.thorough 2>&1; th=$?; fi
+if [ $q -ne 1 ] && [ -z "$QUICK_ONLY" ]; then ./check $ID --tier thorough > /tmp/ev-$ID-$K.thorough 2>&1; th=$?; fi
 t2=$(date +%s)
 git -C /repo checkout -- . ; git -C /repo clean -fdq
 echo "RESULT $ID/$K: quick_exit=$q ($((t1-t0))s) thorough_exit=$th ($((t2-t1))s)"
